@@ -482,7 +482,7 @@ func rulePR3(c *Ctx) *rule {
 					continue
 				}
 				for _, in := range b.Instrs {
-					if site, ok := in.(ssa.CallInstruction); ok && site.Common().StaticCallee() == nextM {
+					if site, ok := in.(ssa.CallInstruction); ok && (site.Common().StaticCallee() == nextM || isNextTokenCall(site)) {
 						pulls = true
 					}
 				}
@@ -514,7 +514,7 @@ func rulePR3(c *Ctx) *rule {
 				}
 				seen[st{b, n}] = true
 				for _, in := range b.Instrs {
-					if site, ok := in.(ssa.CallInstruction); ok && site.Common().StaticCallee() == nextM {
+					if site, ok := in.(ssa.CallInstruction); ok && (site.Common().StaticCallee() == nextM || isNextTokenCall(site)) {
 						n = true
 					}
 				}
@@ -906,12 +906,18 @@ func ruleFM3(c *Ctx) *rule {
 	r := &rule{ID: "FM3", Engine: "E2", Floor: 1,
 		Statement: "every way round the top-level parse loop that does not return appends exactly one node to the tree, and the node appended in an arm is the one parsed in that arm",
 		Necessity: "zero appends lose a comment or statement, two duplicate it; both change what the formatter writes back"}
-	parse := c.method("parser", "Parser", "Parse")
 	appendM := c.method("ast", "Tree", "Append")
-	fi := c.info(parse)
-	if len(fi.loops) == 0 {
-		lost("Parser.Parse has no loop")
+	var parse *ssa.Function
+	for _, site := range c.callersOf(appendM) {
+		f := site.Parent()
+		if fnPkgPath(f) == modPath+"/parser" && c.info(f).innermostLoop(site.Block()) != nil {
+			parse = f
+		}
 	}
+	if parse == nil {
+		lost("no parser function appends to the tree inside a loop")
+	}
+	fi := c.info(parse)
 	// the outermost loop
 	var l *loopInfo
 	for _, x := range fi.loops {
@@ -980,6 +986,16 @@ func parseProperties() []*propertySpec {
 			Explanation: "FM1 proves by a may-be-empty analysis over the SSA form of every String() method of the node types the parser appends (Comment, Assign, Task) that no return path prints the empty string, and that Tree.Write prints every node once, in order; FM2 proves by edge dominance that a parsed comment becomes a docstring only under the guard that the very next token is the task keyword, is never carried over from another iteration, and that Task.String prints it before the keyword; FM3 proves by path enumeration that every way round the parse loop appends exactly one node.",
 			NotCovered:  []string{"preservation of the comment text itself and of order (value-level)", "comments inside task bodies (the lexer rejects them)"},
 			Assumptions: []string{"docstring = comment immediately followed by the task keyword (parser definition)"},
-			Rules:       []func(*Ctx) *rule{ruleFM1, ruleFM2, ruleFM3}},
+			Rules:       []func(*Ctx) *rule{ruleFM1, ruleFM2, ruleFM3, ruleFM4}},
 	}
+}
+
+// isNextTokenCall: a direct pull from the lexer (Tokeniser.NextToken), bypassing the parser's buffer.
+func isNextTokenCall(site ssa.CallInstruction) bool {
+	cc := site.Common()
+	if cc.IsInvoke() {
+		return cc.Method.Name() == "NextToken"
+	}
+	f := cc.StaticCallee()
+	return f != nil && f.Name() == "NextToken"
 }
